@@ -360,6 +360,8 @@ func cmpOrdered[T int64 | uint64 | float64](op string, a, b T) (bool, error) {
 type state struct {
 	line   string
 	labels map[string]string
+	// templated: the line was produced by a line_format template.
+	templated bool
 }
 
 func (s *state) setError() {
@@ -636,6 +638,11 @@ func (p *Pipeline) stage(i int, st gen.Stage, rec Rec, ts int64, s *state) (bool
 		if err != nil {
 			return false, &Unsupported{"ip pattern " + string(st.Value)}
 		}
+		if s.templated {
+			// A template may glue an address to hex-looking text ("10.0.0.1" + "dev"): whether
+			// that still is an address is outside what the generator guarantees.
+			return false, &Unsupported{"ip() filter over a line rewritten by a template"}
+		}
 		ips := LineIPs(s.line)
 		switch st.Op {
 		case "|=":
@@ -691,6 +698,7 @@ func (p *Pipeline) stage(i int, st gen.Stage, rec Rec, ts int64, s *state) (bool
 			return true, nil
 		}
 		s.line = out
+		s.templated = true
 		return true, nil
 	case "label_format":
 		for _, r := range st.Renames {
